@@ -1,5 +1,6 @@
 import Emboss.Properties.C08
 open Emboss.Lr1
+#print axioms C08_validator_sound
 #print axioms C08_sound
 #print axioms C08_safe
 #print axioms C08_complete
